@@ -210,7 +210,7 @@ def run(res, tier, lean, prop="C01", proof_breaks=(), build_log=""):
             bursts = [[("mkdir", "W/n"), ("mkdir", "W/n/a"), ("mkdir", "W/n/b"), ("mkdir", "W/n/d"), ("mkdir", "W/n/dd"),
                        ("create", "W/n/dd/b"), ("mkdir", "W/n/dd/d"), ("create", "W/n/f")],
                       [("create", "W/d/a")]]
-        recursive = True if (prop != "C02" or what is not None) else (i % 3 != 2)
+        recursive = True if (prop not in ("C01", "C02") or what is not None) else (i % 3 != 2)
         full = r.random() < 0.25
         small = r.random() < 0.4
         vanish = None
@@ -275,19 +275,19 @@ def run(res, tier, lean, prop="C01", proof_breaks=(), build_log=""):
 
     # the back-to-back regime in the model (WD.Pipe.Sys.burst: the whole burst read as one batch after its last
     # operation): per burst, the real observer's events against the model's - in order for bursts of file operations
-    # (the regime of C01.burst_files_partial), as a multiset for the others (the order in which a directory walk
+    # (the regime of C01.burst_files_partial) and for every burst under a non-recursive watch (C01.burst_nonrecursive_partial), as a multiset for the others (the order in which a directory walk
     # discovers entries is the listing order of the real file system)
     blines, bmeta = [], []
     for init_b, bursts, recursive, full, small, vanish, out in burst_runs:
-        if vanish is not None or out.get("rm_faults") or out["timeout"] or out["thread_errors"] or not recursive:
+        if vanish is not None or out.get("rm_faults") or out["timeout"] or out["thread_errors"]:
             continue
         applied = out["applied"][:len(out["per_op"])]
         blines.append((f"pipeburst {int(recursive)} {int(full)} I {len(init_b)} " + " ".join(pipe.op_token(o) for o in init_b) +
                        f" B {len(applied)} " + " ".join(f"{len(b)} " + " ".join(pipe.op_token(o) for o in b) for b in applied)
                        ).replace("  ", " "))
-        bmeta.append((init_b, applied, out, full, small))
+        bmeta.append((init_b, applied, out, full, small, recursive))
     bbad = []
-    for line, o, (init_b, applied, out, full, small) in zip(blines, lean.run(blines) if blines else [], bmeta):
+    for line, o, (init_b, applied, out, full, small, recursive) in zip(blines, lean.run(blines) if blines else [], bmeta):
         if o == "bad-op":
             raise RuntimeError("driver refused " + line)
         parts = o.split(" | ")[0].split(" ; ") if applied else []
@@ -296,7 +296,7 @@ def run(res, tier, lean, prop="C01", proof_breaks=(), build_log=""):
             realc = ",".join(pipe.canon_events(real))
             res.bump("bursts_replayed_in_model")
             if simple == "1":
-                res.bump("file_bursts_replayed_in_model")
+                res.bump("file_bursts_replayed_in_model" if recursive else "nonrecursive_bursts_replayed_in_model")
             same = (realc == mevs) if simple == "1" else (sorted(realc.split(",")) == sorted(mevs.split(",")))
             if not same:
                 bbad.append({"request": line, "burst_index": bi, "burst": ops_b, "simple": simple == "1",
